@@ -6,6 +6,8 @@
    `ev` is Rel.eval with fuel 50; statements about `ev` carry the depth bound under which the fuel is not
    exhausted, statements about `evalT` (the same evaluator by structural recursion, Model/Subst.v) need none. *)
 From Coq Require Import List ZArith QArith NArith Bool.
+From Coq Require Import NArith.
+From PV Require Import Lib.ListX Model.Scope Model.ModuleWalk Proofs.ModuleWalkProofs.
 From PV Require Import Model.Rel Model.Subst Model.Rewrite Proofs.SubstProofs Proofs.RewriteProofs.
 Import ListNotations.
 Local Open Scope nat_scope.
@@ -197,3 +199,72 @@ Example c06_ex_module :
   | Some m' => mget m' [8%N; 9%N] 5%N = Some (DVal 2) /\ mget m' [] 5%N = Some (DVal 1)
   | None => False end.
 Proof. vm_compute. split; reflexivity. Qed.
+
+
+(* ==== (e') modules: WHERE the relative references of a moved declaration are resolved.  On C10's Model/Scope.v (resolve_ident's
+   walk over the enclosing modules: d92afac, 7f02b48); Model/ModuleWalk.v adds the place of the find and the module path in effect
+   for a body: a let-table is resolved where it is DECLARED, a function body where the function is CALLED. *)
+
+(* found_at is Scope.rel_enclosing's search, with the module added *)
+Theorem c06_found_at_is_the_compilers_search : forall c mods sc cur id,
+  match found_at c mods sc cur id with
+  | Some p => exists x, In p (walk c cur) /\ mlookup mods sc (p ++ fst id, snd id) = [x] /\ rel_enclosing c mods sc cur id = Some x
+  | None => rel_enclosing c mods sc cur id = None
+  end.
+Proof. exact found_at_is_rel_enclosing. Qed.
+Print Assumptions c06_found_at_is_the_compilers_search.
+
+(* two let-tables moved into ONE module: the relative reference of the second is found in that module (any depth, either walk) *)
+Theorem c06_module_sibling_table_found : forall c mods sc cur id x,
+  cur <> [] -> mlookup mods sc (cur ++ fst id, snd id) = [x] ->
+  found_at c mods sc cur id = Some cur /\ rel_enclosing c mods sc cur id = Some x.
+Proof. exact sibling_table_found. Qed.
+Print Assumptions c06_module_sibling_table_found.
+
+(* the referring table in a CHILD module of the one that holds the target: found in the parent (needs the parent walk, 7f02b48) *)
+Theorem c06_module_parent_table_found : forall c mods sc m n id x,
+  cfg_parent_walk c = true ->
+  (forall y, mlookup mods sc ([m; n] ++ fst id, snd id) <> [y]) -> mlookup mods sc ([m] ++ fst id, snd id) = [x] ->
+  found_at c mods sc [m; n] id = Some [m].
+Proof. exact parent_table_found. Qed.
+Print Assumptions c06_module_parent_table_found.
+
+Theorem c06_let_table_body_independent_of_caller : forall c mods sc decl_path caller1 caller2 id,
+  body_ref c mods sc DLetTable decl_path caller1 id = body_ref c mods sc DLetTable decl_path caller2 id.
+Proof. exact let_table_body_independent_of_caller. Qed.
+Print Assumptions c06_let_table_body_independent_of_caller.
+
+(* FULL statement for functions -- "a function body means the same wherever the function is called from" -- is FALSE (F60b):
+   `module m { let f2 = .. ; let f1 = y -> (f2 y) }`, f1 called from the root: declared in m, `f2` is the sibling function; at the
+   call site it is an inferred column of a wildcard table, an unknown name in a closed frame, ambiguous after a join of two
+   wildcard tables -- the three compile errors of finding F60b.  Holds (partial) for names no enclosing module declares, e.g. the
+   absolute path `m.f2`. *)
+Definition f60b_cfg : cfg := mkCfg true true true true.
+Definition f60b_m : str := [109%N].
+Definition f60b_f1 : str := [102%N; 49%N].
+Definition f60b_f2 : str := [102%N; 50%N].
+Definition f60b_mods : list (list str * nkind) := [([f60b_m; f60b_f2], NFunc); ([f60b_m; f60b_f1], NFunc)].
+Definition f60b_scope (this : frame) : scope := mkScope [(s_std_name, NModule); (s_db_name, NModule); (f60b_m, NModule)] this None [] [].
+Definition f60b_wild (n : str) : input := mkInput n [] true.
+
+Theorem c06_function_body_resolved_at_call_site_refuted :
+  (* where it is declared: the sibling function *)
+  body_ref f60b_cfg f60b_mods (f60b_scope (mkFrame [f60b_wild [116%N]] [])) DLetTable [f60b_m] [] ([], f60b_f2) = RBound (CRoot NFunc) /\
+  (* where it is called: `expected a function, but found this.t.f2` / `Unknown name f2` / `Ambiguous name` *)
+  (exists i, body_ref f60b_cfg f60b_mods (f60b_scope (mkFrame [f60b_wild [116%N]] [])) DFunction [f60b_m] [] ([], f60b_f2) = RInferred i) /\
+  body_ref f60b_cfg f60b_mods (f60b_scope (mkFrame [] [[97%N]])) DFunction [f60b_m] [] ([], f60b_f2) = RErr EUnknown /\
+  body_ref f60b_cfg f60b_mods (f60b_scope (mkFrame [f60b_wild [116%N]; f60b_wild [117%N]] [])) DFunction [f60b_m] [] ([], f60b_f2) = RErr EAmbiguous.
+Proof. vm_compute. repeat split; try reflexivity. eexists; reflexivity. Qed.
+Print Assumptions c06_function_body_resolved_at_call_site_refuted.
+
+Theorem c06_function_body_place_irrelevant_partial : forall c mods sc k decl_path caller_path id,
+  (forall p, In p (walk c decl_path) -> exists e, resolve_core_m mods sc (p ++ fst id, snd id) = RErr e) ->
+  (forall p, In p (walk c caller_path) -> exists e, resolve_core_m mods sc (p ++ fst id, snd id) = RErr e) ->
+  body_ref c mods sc k decl_path caller_path id = body_ref c mods sc DLetTable decl_path caller_path id.
+Proof. exact body_ref_place_irrelevant_partial. Qed.
+Print Assumptions c06_function_body_place_irrelevant_partial.
+
+(* the workaround: the absolute path `m.f2` in the body means the sibling from the root too *)
+Example c06_ex_absolute_path_in_body :
+  body_ref f60b_cfg f60b_mods (f60b_scope (mkFrame [f60b_wild [116%N]] [])) DFunction [f60b_m] [] ([f60b_m], f60b_f2) = RBound (CRoot NFunc).
+Proof. vm_compute. reflexivity. Qed.
